@@ -964,6 +964,8 @@ def heap_line(heap: Dict[str, Any]) -> str:
     tries = f" (tries {heap['tries']})" if heap.get("tries", 1) > 1 else ""
     if heap.get("again", 0):
         tries += f" (again {heap['again']})"
+    if heap.get("hist"):
+        tries += " (hist " + " ".join("(" + " ".join(map(str, st)) + ")" for st in heap["hist"]) + ")"
     return ("(g (roots " + " ".join(map(str, heap["roots"])) + f") (via {heap.get('via', 0)}){tries} "
             + " ".join(node_line(i, n) for i, n in enumerate(heap["nodes"])) + ")")
 
@@ -1021,6 +1023,9 @@ def parse_heap(line: str) -> Dict[str, Any]:
             # value of the reloaded objects IN MEMORY (nothing is written), then the same rows are loaded again in a
             # fresh session, n times. The database is unchanged, so the property demands the same graph every time.
             heap["again"] = int(item[1])
+        elif item[0] == "hist":
+            # harness only (see apply_history): conversions that ran in the same process BEFORE the observed one
+            heap["hist"] = [[st[0]] + [int(x) for x in st[1:]] for st in item[1:]]
         elif item[0] == "n":
             _, oid, cls, _kind, scal, _mapping, view, _tabs, *refs = item
             assert int(oid) == len(heap["nodes"])
@@ -1081,6 +1086,9 @@ def prune(heap, roots=None, via=None) -> Dict[str, Any]:
         out["tries"] = heap["tries"]
     if heap.get("again", 0):
         out["again"] = heap["again"]
+    hist = [[st[0], idx[st[1]]] + list(st[2:]) for st in heap.get("hist", []) if st[1] in idx]
+    if hist:
+        out["hist"] = hist
     return out
 
 
@@ -1312,6 +1320,10 @@ def shrink_heap(heap):
         h = copy.deepcopy(heap)
         h["again"] = heap["again"] - 1
         out.append(h)
+    for j in range(len(heap.get("hist", []))):
+        h = copy.deepcopy(heap)
+        del h["hist"][j]
+        out.append(h)
     res = []
     seen = set()
     for h in out:
@@ -1383,6 +1395,9 @@ def tags_of(heap) -> Tuple[str, ...]:
     tags.add("root:" + nodes[heap["roots"][0]]["cls"])
     if len(heap["roots"]) > 1:
         tags.add("multi-root")
+    for st in heap.get("hist", []):
+        tags.add("history")
+        tags.add("hist-" + st[0])
     return tuple(sorted(tags))
 
 
@@ -1448,6 +1463,58 @@ def altmapped_backedge(heap) -> bool:
         if r not in color:
             dfs(r)
     return hit
+
+
+# ------------------------------------------------------------------------------------------------------------------
+# histories: what happened in the process before the observed conversion.  `(hist step…)`, steps in order:
+#   (abort i k)  `to_dao(first root)` (default state) is attempted while reference field k of node i holds an object
+#                of a class WITHOUT a DAO (single reference: in place of its value; collection: appended), so the
+#                conversion is aborted by an exception raised INSIDE it, after every object on the way to node i was
+#                registered; the field is restored afterwards (the graph the observed conversion sees is the case's heap);
+#   (conv i)     a completed `to_dao(node i)` (default state) whose result is dropped.
+# Every top-level conversion of the code under test starts from a fresh ToDAOState, so the property demands - and the
+# model (Drive/C04.lean ignores the item: `roundTrip` starts from the empty state) predicts - that a history changes
+# nothing: the observed round trip must still be an isomorphic copy of the heap as it is NOW.
+
+
+class HarnessUnmapped:
+    """an object of a class no DAO exists for (never part of the class diagram the ORM is generated from)"""
+
+
+def gen_history(rng, heap) -> Optional[List[List[Any]]]:
+    """1-2 history steps over the nodes of a (pruned) heap"""
+    nodes = heap["nodes"]
+    spots = [(i, k) for i, n in enumerate(nodes) if n["cls"] != "function" for k in range(len(n["refs"]))]
+    steps: List[List[Any]] = []
+    for _ in range(rng.choice([1, 1, 2])):
+        if spots and (not steps or rng.random() < 0.6) and rng.random() < 0.75:
+            # prefer spots reached late (deep / last fields): more of the graph is registered when the exception is raised
+            i, k = rng.choice(spots[len(spots) // 2:] if rng.random() < 0.5 else spots)
+            steps.append(["abort", i, k])
+        else:
+            steps.append(["conv", rng.randrange(len(nodes))])
+    return steps or None
+
+
+def apply_history(heap, objs, to_dao) -> None:
+    """run the history of the case on the real objects (see above); exceptions of the earlier conversions are theirs"""
+    for st in heap.get("hist", []):
+        if st[0] == "abort":
+            n, o = heap["nodes"][st[1]], objs[st[1]]
+            name = SCHEMA[n["cls"]]["refs"][st[2]]["name"]
+            old = getattr(o, name)
+            object.__setattr__(o, name, (list(old) + [HarnessUnmapped()]) if isinstance(old, list) else HarnessUnmapped())
+            try:
+                to_dao(objs[heap["roots"][0]])
+            except Exception:  # noqa: BLE001  (the documented NoDAOFound… errors; whatever a mapping raises)
+                pass
+            finally:
+                object.__setattr__(o, name, old)
+        elif st[0] == "conv":
+            try:
+                to_dao(objs[st[1]])
+            except Exception:  # noqa: BLE001
+                pass
 
 
 # ------------------------------------------------------------------------------------------------------------------
@@ -1898,6 +1965,7 @@ def work_c04(line: str) -> str:
             objs = build_objects(heap, ex)
             roots = [objs[r] for r in heap["roots"]]
             before = canon(roots)
+            apply_history(heap, objs, to_dao)
             if len(roots) == 1:
                 res = [to_dao(roots[0]).from_dao()]
             else:
